@@ -14,8 +14,31 @@ pub fn calculate_scopes(count: u32) -> Vec<CalculationScope> {
     for i in 0..count {
         let x: f32 = 48.0 - 48.0 * (1.0 - (i as f32 + 1.0) / count as f32).sqrt();
 
-        let turn_to = x.floor() as u8;
-        let river_to = ((48 - turn_to) as f32 * (x % 1.0)).ceil() as u8 + turn_to + 1;
+        let mut turn_to = x.floor() as u8;
+        let mut river_to;
+
+        if i + 1 == count || turn_to >= 48 {
+            // the last scope always ends at the end of the enumeration
+            turn_to = 48;
+            river_to = 49;
+        } else {
+            let offset = ((48 - turn_to) as f32 * (x % 1.0)).ceil() as u8;
+
+            river_to = turn_to + 1 + offset.min(48 - turn_to);
+
+            if river_to > 48 {
+                // past the last river card of this row: the next position is the
+                // first one of the next row
+                turn_to += 1;
+                river_to = turn_to + 1;
+            }
+        }
+
+        if (turn_to, river_to) < (prev_t, prev_r) {
+            // never step backwards
+            turn_to = prev_t;
+            river_to = prev_r;
+        }
 
         scopes.push(CalculationScope {
             turn_from: prev_t,
